@@ -186,12 +186,27 @@ fn program(ctx: &Ctx, case: u64, r: &mut Rng, rep: &mut Report) {
                 // content in several parts, as the packer hands it over
                 let mut list = rustic_core::BytesList::default();
                 if len > 2 && r.chance(1, 2) {
-                    // parts are never empty: rustic_core never hands over empty parts, and OpenDAL's fs service
-                    // (0.58) loops forever on a multi-part buffer whose first part is empty (observed: endless
-                    // pwrite64(count=0) in a tokio worker) - a dependency issue outside what the library can produce
+                    // OpenDAL (0.58, fs and memory service alike) loops forever on a multi-part buffer with an empty part
+                    // (observed: endless pwrite64(count=0) in a tokio worker) - a dependency issue outside what the
+                    // library itself produces; there the parts are never empty. The local backend also gets empty
+                    // parts at the front, in the middle and at the end.
                     let cut = 1 + r.usize_below(len - 1);
+                    let empties = kind == Kind::Local && r.chance(1, 2);
+                    let e = |list: &mut rustic_core::BytesList, r: &mut Rng| {
+                        if empties {
+                            for _ in 0..r.below(3) {
+                                list.add(Bytes::new());
+                            }
+                        }
+                    };
+                    e(&mut list, r);
                     list.add(data.slice(..cut));
+                    e(&mut list, r);
                     list.add(data.slice(cut..));
+                    e(&mut list, r);
+                    if empties {
+                        rep.count("writes_with_empty_parts", 1);
+                    }
                 } else {
                     list.add(data.clone());
                 }
